@@ -230,6 +230,17 @@ func (fx *FnCtx) evalSpec(env *Env, e SpecExpr) SV {
 	case *SUn:
 		a := fx.evalSpec(env, x.X)
 		switch x.Op {
+		case "*":
+			// *p: the value the pointer p refers to, in the state of the environment
+			pt, ok := a.V.T.Underlying().(*types.Pointer)
+			if !ok {
+				fx.specFail(x, "* applied to a non-pointer")
+			}
+			p := fx.asPtr(a.V)
+			v := fx.Load(env.st, p)
+			v.T = pt.Elem()
+			fx.groundFacts(v)
+			return SV{V: v}
 		case "!":
 			return SV{V: Value{T: types.Typ[types.Bool], L: []*Term{Not(a.V.L[0])}}}
 		case "-":
@@ -983,6 +994,11 @@ func (fx *FnCtx) evalCall(env *Env, x *SCall) SV {
 		mh := fx.mapInfo(rng.X.Type())
 		key := fx.typed(fx.evalSpec(env, x.Args[1]), mh.mt.Key())
 		return boolSV(Select(g.L[0], fx.mapKey(mh, key.V)))
+	}
+	if fx.V.cs.GhostFields[x.Fun] && len(x.Args) == 1 {
+		return intSV(Select(fx.ghostHeap(env.st, "G:"+x.Fun), fx.ghostOwner(x, fx.evalSpec(env, x.Args[0]).V)))
+	}
+	switch x.Fun {
 	case "lockstate":
 		// lockstate(m): ghost state of the sync.Mutex/RWMutex object m points to:
 		// 0 free, -1 write-locked, n > 0 read-locked n times
@@ -1401,4 +1417,25 @@ func (fx *FnCtx) loopEnv(li *loopInfo, st *State, phiVals map[*ssa.Phi]Value) *E
 		return fx.lookupEntryVar(name, st)
 	}
 	return env
+}
+
+// ghostOwner: the reference that owns a ghost field: the object a pointer refers to, or the object
+// an interface value holds.
+func (fx *FnCtx) ghostOwner(x SpecExpr, v Value) *Term {
+	if v.P != nil {
+		if v.P.Kind != PObj || v.P.Off != 0 {
+			fx.specFail(x, "ghost field of something that is not a whole object")
+		}
+		return v.P.Ref
+	}
+	if v.T != nil {
+		if _, ok := v.T.Underlying().(*types.Interface); ok && len(v.L) == 2 {
+			return v.L[1]
+		}
+		if _, ok := v.T.Underlying().(*types.Pointer); ok && len(v.L) == 1 {
+			return v.L[0]
+		}
+	}
+	fx.specFail(x, "ghost field needs a pointer or an interface value")
+	return nil
 }
